@@ -116,6 +116,21 @@ reg('C10', 'Hypothesis stateful (RuleBasedStateMachine) save/reload histories vs
     'with a dictionary model of the last saved state, and stored waveforms with the raw windows. '
     'The shrunk (spec, trace) pair is the replay file.', TRUST + DS + ' Python csv; mtscomp.')
 
+MRG = ' Merge inputs always contain amplitudes, index tables (equal widths) and spike_clusters, as KiloSort writes them.'
+reg('C11', 'Hypothesis generated multi-probe inputs vs stable-sort/offset oracle + input hashes',
+    'One to four generated probe directories (ties in time inside and across probes, id gaps, '
+    'curated clusters, mixed dtypes, optional per-cluster TSV files in all/some/none) are merged '
+    'by the real Merger; every merged spike is traced back to its (probe, index) pair through an '
+    'independent stable sort, per-probe id offsets are inferred and checked for constancy and '
+    'disjointness, metadata renumbering and probe tables are compared, and SHA-256 hashes show '
+    'the inputs untouched.', TRUST + DS + MRG)
+reg('C12', 'Hypothesis generated multi-probe inputs vs block-structure oracle (known finding excluded by construction)',
+    'The files written by the real Merger for one to four generated probes of unequal channel and '
+    'template counts are compared block by block with the inputs: channel blocks, probe labels, '
+    'x-translated geometry kept apart, template rows on their own channel block, index tables in '
+    'merged numbering, block-diagonal matrices, parameters. The recorded finding F13 is excluded '
+    'from generation (counted) and pinned by a witness case.', TRUST + DS + MRG)
+
 
 def main():
     props = [json.loads(l) for l in (HERE / 'properties.jsonl').read_text().splitlines() if l.strip()]
